@@ -147,6 +147,20 @@ def check_fixed_point(ctx, spec, p, channel, C, otherdir):
                 cause = "set-order"
             if dd:
                 steps, reason = dd
+                keypath, t, rest = [], None, ()
+                for ii, (kind, k) in enumerate(steps):
+                    if kind != "key":
+                        break
+                    keypath.append(str(k))
+                    if ".".join(keypath) in types:
+                        t = types[".".join(keypath)]
+                        rest = steps[ii + 1 :]
+                        break
+                if t is not None:
+                    lu, _ = c01.descend(t, C0[".".join(keypath)], rest)
+                    if lu is not None and c01.union_ambiguous(*lu) in ("ambiguous", "undecided"):
+                        ctx.count("ambiguous_union_not_judged")
+                        return
                 cls = "+".join(c for c in c01.string_classes(C0) if not c.startswith("key:")) or "no-hostile-string"
                 ctx.violation("fixedpoint", f"dump-parse-dump/config-differs/{diff_class((steps_str(steps), reason))}/{cls if 'unicode-break' in cls else 'any'}", dict(channel=channel, fmt=fmt, at=steps_str(steps), why=reason, first=short(o1.value, 600), second=short(o2.value, 600)))
                 return
@@ -167,6 +181,16 @@ def case(ctx, i, rng):
     if not o.accepted:
         return
     p = o.value
+    if i % 7 == 3:
+        # a parse that fails while class defaults are added (must not influence the fixed points judged afterwards)
+        from jsonargparse import ArgumentParser as _AP
+
+        from vf.fixtures import zoo as _zoo
+
+        q = _AP(exit_on_error=False)
+        q.add_argument("--m", type=_zoo.Base)
+        call(q.parse_args, ["--m=vf.fixtures.zoo.BadDefault"])
+        ctx.count("ev.failing_parse_in_add_sub_defaults_before_case")
     otherdir = os.path.join(ctx.workdir, "elsewhere")
     os.makedirs(otherdir, exist_ok=True)
     for channel, o in sources(rng, spec, p, ctx.workdir, i):
